@@ -62,6 +62,13 @@ def perform(op, ctx):
         hit = b.calc(op["calc"]).fire(b.shot(op["shot"]), ctx.arg(op["range"]), **kw)
         ctx.hits[op.get("_idx")] = hit
         return hit
+    if k == "retag":
+        # the caller converts the DISPLAY unit of a quantity held by a pool object (q << unit): legal at any time, on
+        # shared objects too - display units are free and must not influence any result
+        obj = getattr(b, op["kind"][:-1])(op["index"])
+        q = getattr(obj, op["field"])
+        q << getattr(pb.Unit, op["unit"])
+        return None
     if k == "edit":
         b.apply_edits([[op["kind"], op["index"], op["field"], op["value"]]])
         return None
